@@ -297,7 +297,6 @@ func (p *Proxy) Serve(l net.Listener) error {
 			return err
 		}
 		delay = 0
-		log.Debug(context.TODO(), "accepted connection", "address", conn.RemoteAddr().String())
 
 		go p.handleLoop(conn)
 	}
@@ -305,6 +304,10 @@ func (p *Proxy) Serve(l net.Listener) error {
 
 func (p *Proxy) handleLoop(conn net.Conn) {
 	start := time.Now()
+
+	// The address is not evaluated in the accept loop, for a PROXY protocol
+	// connection it blocks until the header is read.
+	log.Debug(context.TODO(), "accepted connection", "address", conn.RemoteAddr().String())
 
 	p.connsMu.Lock()
 	p.conns[conn] = struct{}{}
